@@ -46,6 +46,12 @@ KTAB = {
     "Cn": lambda v: ("capacitor", {"C": F(v, 10 ** 8)}),
     "Lm": lambda v: ("inductance", {"L": F(v, 1000)}),
     "Vhf": lambda v: ("ac_voltage_source", {"V": 5, "w": 1000000, "phi": "a34", "R": 50}),
+    # sinusoidal sources whose own frequency is 0 (the constructor default): A*cos(phi) in the DC analysis, A*exp(j*phi) at w = 0
+    "Vac0": lambda v: ("ac_voltage_source", {"V": F(5, 2), "w": 0, "phi": "a34"}),
+    "Iac0": lambda v: ("ac_current_source", {"I": -2, "w": 0, "phi": "a43", "G": F(1, v)}),
+    # small-signal sources (microvolts, a tenth of a microampere): powers of 1e-12 W and below
+    "Vdcs": lambda v: ("dc_voltage_source", {"V": F(v, 10 ** 6)}),
+    "Iacs": lambda v: ("ac_current_source", {"I": F(1, 10 ** 7), "w": 1, "phi": "a34"}),
     "Vc": lambda v: ("complex_voltage_source", {"V": [1, v], "Z": [0, 0]}),
     "Ic": lambda v: ("complex_current_source", {"I": [v, -1], "Y": [F(1, v), 0]}),
 }
@@ -58,14 +64,14 @@ RES_DEFAULT = F(1, 1000)
 
 
 def budget_s(tier):
-    return 400 if tier == "quick" else 7200
+    return 900 if tier == "quick" else 7200
 
 
 LEVELS_QUICK = [(2, 1, K_ALL), (2, 2, K_ALL), (3, 2, K_ALL), (2, 3, K12), (3, 3, K12), (3, 4, K4), (2, 3, KPHYS), (3, 3, KPHYS)]
 LEVELS_THOROUGH = [(2, 1, K_ALL), (2, 2, K_ALL), (3, 2, K_ALL), (2, 3, K_ALL), (3, 3, K_ALL), (3, 4, K5 + ("Vacl", "G")), (4, 3, K12), (4, 4, K5), (3, 4, KPHYS)]
 
 
-SRC_W = {"Vhf": 1000000, "Vdc": 0, "Vdcl": 0, "Idc": 0, "Idcl": 0, "Vac": 1, "Iac": 1, "Vacl": 2, "Iacl": 2, "Vach": 2000, "Iach": 2000}
+SRC_W = {"Vdcs": 0, "Iacs": 1, "Vac0": 0, "Iac0": 0, "Vhf": 1000000, "Vdc": 0, "Vdcl": 0, "Idc": 0, "Idcl": 0, "Vac": 1, "Iac": 1, "Vacl": 2, "Iacl": 2, "Vach": 2000, "Iach": 2000}
 
 
 def freq_alphabet(kt=None):
